@@ -1,11 +1,17 @@
 // Package c11 drives the real state.Cluster through the real informer controllers on generated
-// API histories and compares the cache with a fresh real Cluster and with the Coq model.
+// API histories, and compares the cache (a) with the Coq model at observation points, (b) after a
+// closing round with the recomputation from the API objects (Coq oracle fresh_eqb on the
+// implementation's cache) and (c) with a fresh real Cluster fed the final API state (model-free).
 package main
 
 import (
+	"crypto/sha1"
 	"fmt"
 	"os"
+	"runtime"
+	"sort"
 	"strings"
+	"sync"
 
 	"github.com/go-logr/logr"
 	"sigs.k8s.io/controller-runtime/pkg/log"
@@ -32,72 +38,163 @@ func opString(o Op) string {
 		return fmt.Sprintf("SetClaim%+v", *o.Claim)
 	case "SetPod":
 		p := o.Pod
-		return fmt.Sprintf("SetPod{%s@%s term=%v ds=%v cost=%d ports=%v vols=%v aa=%v}", p.Name, p.Node, p.Terminal, p.DS, p.Cost, p.PortsRes, p.VolsRes, p.AntiAff)
+		return fmt.Sprintf("SetPod{%s@%s term=%v ds=%v req=%d/%d cost=%d ports=%v vols=%v antiaffinity=%v}", p.Name, p.Node, p.Terminal, p.DS, p.ReqCPU, p.ReqMem, p.Cost, p.PortsRes, p.VolsRes, p.AntiAff)
 	case "Mark", "Unmark":
 		return o.Kind + fmt.Sprint(o.IDs)
+	case "Obs":
+		return "(observe " + o.Tag + ")"
+	case "Panic":
+		return "(PANIC)"
 	}
 	return o.Kind + " " + o.Name
 }
 
-func explore(c *kit.Ctx) {
-	n := 400
-	stats := map[string]int{}
-	shown := map[string]int{}
-	for i := 0; i < n; i++ {
-		r := c.Rand.Fork()
-		g := &gen{r: r, w: newWorld(), dirty: map[string]bool{}, ever: map[string]bool{}, bound: map[string]bool{}, count: c.Count,
-			nNodes: r.Range(2, 4), nClaims: r.Range(1, 3), nPods: r.Range(2, 6)}
-		switch os.Getenv("C11_PROFILE") {
-		case "pid":
-			g.prof.PidReuse = true
-		case "untracked":
-			g.prof.Untracked = true
-		case "nodeloss":
-			g.prof.NodeLoss = true
-		case "relabel":
-			g.prof.Relabel = true
-		case "samenode":
-			g.prof.SameNodeRe = true
+type caseInput struct {
+	Profile  string   `json:"profile"`
+	Ops      []string `json:"ops"`
+	KfKey    string   `json:"kf_key,omitempty"`
+	GoDiff   []string `json:"fresh_cluster_diff,omitempty"`
+	WeakDiff []string `json:"diff_after_each_object_delivered_once,omitempty"`
+	Panic    string   `json:"panic,omitempty"`
+}
+
+type result struct {
+	gallina string
+	input   caseInput
+	counts  map[string]int
+	key     string
+	goFail  bool
+}
+
+var interesting = []string{"br:UpdateNode:providerID-changed", "br:UpdateNode:joins-claim-entry", "br:DeleteNode:claim-keeps-entry",
+	"br:UpdateNodeClaim:carries-over-pods", "br:UpdateNodeClaim:providerID-changed", "br:DeleteNodeClaim:node-keeps-entry",
+	"br:UpdatePod:moved-cleans-old-node", "br:UpdatePod:node-not-found", "br:DeletePod:cleans-node", "br:UpdatePod:terminal-cleans-node",
+	"br:Mark:hit", "br:PodCompletion:node-gone"}
+
+// profiles whose closing observation is checked against the recomputation (oracle)
+var oracleProfiles = map[string]bool{"wellformed": true, "samenode": true, "nodeloss": true, "untracked": true}
+
+func profileOf(name string) profile {
+	switch name {
+	case "samenode":
+		return profile{SameNodeRe: true}
+	case "nodeloss":
+		return profile{NodeLoss: true}
+	case "untracked":
+		return profile{Untracked: true}
+	case "assume:pid-reuse":
+		return profile{PidReuse: true}
+	case "assume:relabel":
+		return profile{Relabel: true}
+	case "assume:untrackable-after-tracked":
+		return profile{Untracked: true, Untrackable: true}
+	}
+	return profile{}
+}
+
+// classify maps a divergence to the key of the finding whose exact shape it has ("" = not a known shape).
+func classify(prof string, diffs []string, w *world) string {
+	if len(diffs) == 0 {
+		return ""
+	}
+	cats := categories(diffs)
+	within := func(allowed ...string) bool {
+		for _, c := range cats {
+			ok := false
+			for _, a := range allowed {
+				ok = ok || a == c
+			}
+			if !ok {
+				return false
+			}
 		}
-		panicked, msg := kit.Recover(func() {
-			g.history(r.Range(8, 30))
-			g.weakClose()
-			fc, fd := g.w.fresh(markedIDs(g.w))
-			dw := diffDumps(g.w.cluster.VerifC11Dump(), fd)
-			dw = append(dw, poolStateDiff(g.w.cluster, fc, []string{"pa", "pb"})...)
-			for _, cat := range categories(dw) {
-				stats["weak:"+cat]++
-			}
-			g.fullRound()
-			fc, fd = g.w.fresh(markedIDs(g.w))
-			df := diffDumps(g.w.cluster.VerifC11Dump(), fd)
-			df = append(df, poolStateDiff(g.w.cluster, fc, []string{"pa", "pb"})...)
-			if a, b := antiAffinityView(g.w.cluster), antiAffinityView(fc); strings.Join(a, ",") != strings.Join(b, ",") {
-				df = append(df, fmt.Sprintf("anti-affinity: cached=%v fresh=%v", a, b))
-			}
-			for _, cat := range categories(df) {
-				stats["full:"+cat]++
-				if shown[cat] < 2 {
-					shown[cat]++
-					fmt.Println("==== history", i, "diverges after the full round:", df)
-					for _, o := range g.ops {
-						fmt.Println("   ", opString(o))
-					}
-				}
-			}
-		})
-		if panicked {
-			stats["panic"]++
-			if shown["panic"] < 2 {
-				shown["panic"]++
-				fmt.Println("==== history", i, "PANIC", msg)
-				for _, o := range g.ops {
-					fmt.Println("   ", opString(o))
-				}
-			}
+		return true
+	}
+	switch prof {
+	case "untracked":
+		if within("bindings", "anti-affinity") {
+			return "stale-binding-after-pod-recreated-unbound"
+		}
+	case "nodeloss":
+		if within("pod-requests", "daemonset-requests", "disruption-cost", "host-ports", "volume-usage", "bindings", "anti-affinity") {
+			return "stale-aggregates-on-claim-only-node"
 		}
 	}
-	fmt.Println(stats)
+	return ""
+}
+
+func runHistory(seed uint64, profName string, script func(g *gen)) (res result) {
+	r := kit.NewRand(seed)
+	counts := map[string]int{}
+	g := &gen{r: r, w: newWorld(), prof: profileOf(profName), dirty: map[string]bool{}, ever: map[string]bool{}, bound: map[string]bool{},
+		count: func(k string) { counts[k]++ }, nNodes: r.Range(2, 4), nClaims: r.Range(1, 3), nPods: r.Range(2, 6)}
+	res.counts = counts
+	res.input.Profile = profName
+	counts["profile:"+profName]++
+	var fresh []string
+	panicked, msg := kit.Recover(func() {
+		if script != nil {
+			script(g)
+		} else {
+			n := r.Range(6, 28)
+			mid := r.Range(3, n)
+			g.history(mid)
+			g.observe("mid")
+			g.history(len(g.ops) + n - mid)
+		}
+		g.observe("history")
+		g.weakClose()
+		g.observe("each-delivered-once")
+		fc, fd := g.w.fresh(markedIDs(g.w))
+		res.input.WeakDiff = diffDumps(g.w.cluster.VerifC11Dump(), fd)
+		_ = fc
+		g.fullRound()
+		fc, fd = g.w.fresh(markedIDs(g.w))
+		fresh = diffDumps(g.w.cluster.VerifC11Dump(), fd)
+		fresh = append(fresh, poolStateDiff(g.w.cluster, fc, []string{"pa", "pb"})...)
+		if a, b := antiAffinityView(g.w.cluster), antiAffinityView(fc); strings.Join(a, ",") != strings.Join(b, ",") {
+			fresh = append(fresh, fmt.Sprintf("anti-affinity: cached=%v fresh=%v", a, b))
+		}
+		if oracleProfiles[profName] {
+			g.observe("final")
+		} else {
+			g.observe("closing")
+		}
+	})
+	if panicked {
+		g.ops = append(g.ops, Op{Kind: "Panic"})
+		res.input.Panic = msg
+		counts["outcome:panic"]++
+	}
+	for _, c := range categories(res.input.WeakDiff) {
+		counts["after-each-object-delivered-once:differs:"+c]++
+	}
+	res.input.GoDiff = fresh
+	if len(fresh) > 0 {
+		if oracleProfiles[profName] {
+			res.input.KfKey = classify(profName, fresh, g.w)
+			res.goFail = true
+			counts["outcome:differs-from-fresh"]++
+		} else {
+			counts["outcome:"+profName+":differs-from-fresh"]++
+		}
+	} else if !panicked {
+		counts["outcome:equals-fresh"]++
+	}
+	for _, o := range g.ops {
+		res.input.Ops = append(res.input.Ops, opString(o))
+	}
+	hit := 0
+	for _, b := range interesting {
+		if counts[b] > 0 {
+			hit++
+		}
+	}
+	if hit >= 2 {
+		res.key = fmt.Sprintf("%x", sha1.Sum([]byte(strings.Join(res.input.Ops, ";"))))
+	}
+	res.gallina = gCase(g.ops)
+	return
 }
 
 func main() {
@@ -107,4 +204,82 @@ func main() {
 		explore(c)
 		return
 	}
+	nGen, nAssume := 330, 30
+	if c.Thorough() {
+		nGen, nAssume = 5000, 300
+	}
+	type job struct {
+		seed   uint64
+		prof   string
+		script func(*gen)
+	}
+	var jobs []job
+	for _, s := range corpus() {
+		jobs = append(jobs, job{1, s.prof, s.run})
+	}
+	for i := 0; i < nGen; i++ {
+		prof := "wellformed"
+		switch x := c.Rand.Intn(20); {
+		case x < 3:
+			prof = "samenode"
+		case x < 6:
+			prof = "nodeloss"
+		case x < 9:
+			prof = "untracked"
+		}
+		jobs = append(jobs, job{c.Rand.U64(), prof, nil})
+	}
+	for i := 0; i < nAssume; i++ {
+		jobs = append(jobs, job{c.Rand.U64(), []string{"assume:pid-reuse", "assume:relabel", "assume:untrackable-after-tracked"}[i%3], nil})
+	}
+	results := make([]result, len(jobs))
+	var wg sync.WaitGroup
+	next := make(chan int)
+	for w := 0; w < runtime.NumCPU(); w++ {
+		wg.Add(1)
+		go func() {
+			defer wg.Done()
+			for i := range next {
+				results[i] = runHistory(jobs[i].seed, jobs[i].prof, jobs[i].script)
+			}
+		}()
+	}
+	for i := range jobs {
+		next <- i
+	}
+	close(next)
+	wg.Wait()
+	for _, r := range results {
+		id := c.AddCase(r.gallina, r.input, r.key)
+		for k, v := range r.counts {
+			for ; v > 0; v-- {
+				c.Count(k)
+			}
+		}
+		if r.goFail {
+			c.Fail(id, "cache differs from a fresh real Cluster fed the final API state: "+strings.Join(r.input.GoDiff, "; "), r.input.KfKey, r.input)
+		}
+	}
+	var uncovered []string
+	for _, b := range allBranches {
+		if c.Meta.Distribution[b] == 0 {
+			uncovered = append(uncovered, b)
+		}
+	}
+	sort.Strings(uncovered)
+	c.Meta.Extra = map[string]interface{}{"uncovered_branches": uncovered,
+		"assumptions": []string{
+			"a provider id is never handed from one Node (NodeClaim) name to another (profile assume:pid-reuse explores it without oracle)",
+			"the nodepool label of a NodeClaim/Node does not change (assume:relabel)",
+			"a Node the cache tracks does not become untrackable (managed without providerID / without instance-type label) under the same name (assume:untrackable-after-tracked)",
+			"NodeClaim names are not re-used by an unlaunched claim before the deletion was observed",
+			"DaemonSet informer cache (GetDaemonSetPod), nomination, consolidation timestamps and NodePoolState internals are outside the model; NodePoolState counts are compared against the fresh real Cluster only"}}
+	c.Meta.Rule = fmt.Sprintf("%d generated histories (6-28 API/delivery ops over 2-4 nodes, 1-3 claims, 2-6 pods, then every changed key once, then a closing round over all keys in random order with duplicates) + %d assumption-breaking ones (model correspondence only) + corpus; non-trivial = at least two of the identity-changing / cross-object branches taken; distinct by op list", nGen, nAssume)
+	c.Meta.Corr = []string{
+		"state.Cluster.{UpdateNode,DeleteNode} via informer.NodeController.Reconcile = C11.Model.deliver_node",
+		"state.Cluster.{UpdateNodeClaim,DeleteNodeClaim} via informer.NodeClaimController.Reconcile = C11.Model.deliver_claim",
+		"state.Cluster.{UpdatePod,DeletePod} via informer.PodController.Reconcile = C11.Model.deliver_pod",
+		"state.Cluster.{MarkForDeletion,UnmarkForDeletion} = C11.Model.set_mark",
+		"StateNode.{PodRequests,DaemonSetRequests,DisruptionCost,MarkedForDeletion,Labels,Capacity} = C11.Check.acc_of / C11.Model.vnode_of"}
+	c.Finish("From KV Require Import C11.Model C11.Check.", "case", "check_all", 60)
 }
